@@ -16,6 +16,9 @@ fn main() {
     let cfg = Cfg::from_env(args.get(2).map(|s| s.as_str()));
     let code = match args[1].as_str() {
         "C01" => props::c01::run(&cfg),
+        "C04" => props::c04::run(&cfg),
+        "C09" => props::c09::run(&cfg),
+        "C16" => props::c16::run(&cfg),
         "replay-eval" => {
             props::c01::replay(&args[2]);
             0
